@@ -297,6 +297,7 @@ type result struct {
 	keys  []string // reference state after each explored step
 	feats []string // coverage signature of each non-trivial step
 	next  []string // letters enabled after the last explored step
+	at    map[string]int // violation signature -> number of explored letters played when it arose
 }
 
 var (
@@ -353,7 +354,17 @@ func runHistory(t *testing.T, cfg config, forced []string, depth int, c *mc.Choo
 		x := &env{m: m, only: cfg.only}
 		var cparse h2wire.Parser
 
+		played := 0
+		res.at = map[string]int{}
 		observe := func(rec *stepRec) {
+			nv := len(res.viols)
+			defer func() {
+				for _, v := range res.viols[nv:] {
+					if _, ok := res.at[v.Sig()]; !ok {
+						res.at[v.Sig()] = played
+					}
+				}
+			}()
 			synctest.Wait()
 			frames := conn.Frames()
 			ctl.mu.Lock()
@@ -436,6 +447,7 @@ func runHistory(t *testing.T, cfg config, forced []string, depth int, c *mc.Choo
 			if _, ok := l.build(x); !ok {
 				panic(mc.HarnessError{Msg: "forced letter " + name + " not enabled"})
 			}
+			played++
 			play(l)
 			res.keys = append(res.keys, m.Key())
 		}
@@ -455,6 +467,7 @@ func runHistory(t *testing.T, cfg config, forced []string, depth int, c *mc.Choo
 					costs[i] = 1
 				}
 			}
+			played++
 			play(&alpha[en[c.Choose(labels, costs)]])
 			res.keys = append(res.keys, m.Key())
 		}
@@ -826,12 +839,23 @@ func report(t *testing.T, rep *ev.Report, ph phase, name string, forced []string
 		rep.HarnessError("violation did not reproduce 5/5 (%d) in %s %v %v: %s", okN, name, forced, f.Trace, f.What)
 		return
 	}
+	letters := append(append([]string{}, forced...), f.Trace...)
+	if k, ok := last.at[f.Sig]; ok && k < len(letters) {
+		// the history up to the violating step is the witness; make sure it is one
+		short, out := runHistory(t, ph.cfg, letters[:k], 0, nil, false)
+		for _, sg := range out.Sigs {
+			if sg == f.Sig {
+				letters, last = letters[:k], short
+				break
+			}
+		}
+	}
 	parts := strings.SplitN(f.Sig, "|", 3)
 	for len(parts) < 3 {
 		parts = append(parts, "")
 	}
 	rep.Violate(map[string]any{"kind": parts[0], "state": parts[1], "got": parts[2]},
-		map[string]any{"phase": name, "max_concurrent_streams": ph.cfg.maxStreams, "letters": append(append(append([]string{}, ph.cfg.prefix...), forced...), f.Trace...), "history": last.steps},
+		map[string]any{"phase": name, "max_concurrent_streams": ph.cfg.maxStreams, "letters": append(append([]string{}, ph.cfg.prefix...), letters...), "history": last.steps},
 		"%s", f.What)
 }
 
